@@ -177,6 +177,7 @@ def decide_and_report(M, tier, seed, results, dead, nshards, wall_s):
         if len(replay_paths) >= 12:
             break
     n_real = sum(n for m, n in mech_counts.items() if not findings_mod.is_open(kf, pid, m))
+    n_real = min(n_real, sum(cs.get("violated", 0) for cs in mg["clauses"].values())) if n_real else 0
 
     # ---- conclusiveness
     incon = []
@@ -318,12 +319,37 @@ def replay(M, path):
     return 0 if c.status in ("held", "unmet") else 2
 
 
+def run_one(M, tier, seed, k):
+    from harness.shard import run_case
+    from harness.core import brief
+    runtime.load_dreye()
+    if M.setup:
+        M.setup()
+    name, i = M.case_plan(tier, k)
+    clause = M.clauses[name]
+    inputs = clause.gen(M.rng(seed, k), i)
+    c = run_case(M, clause, inputs)
+    print(f"[{M.pid}] case {k} clause={name} i={i} status={c.status} nontrivial={c.is_nontrivial}")
+    print("  cells:", sorted(c.cells))
+    print("  inputs:", json.dumps(brief(inputs))[:1500])
+    print("  notes:", json.dumps(strict_json(c.notes))[:1500])
+    if c.harness_error:
+        print("HARNESS-ERROR\n", c.harness_error)
+    for v in c.violations:
+        print(f"  violated: {v.what} [mechanism={v.mechanism}]")
+        print("    " + json.dumps(v.detail)[:1200])
+    for w in c.inconclusive_why + c.unmet_why:
+        print("  why:", w)
+    return 0
+
+
 def main(argv=None):
     ap = argparse.ArgumentParser()
     ap.add_argument("pid")
     ap.add_argument("--tier", default=os.environ.get("VERIF_TIER", "quick"), choices=["quick", "thorough"])
     ap.add_argument("--replay")
     ap.add_argument("--seed", type=int, default=None)
+    ap.add_argument("--case", type=int, default=None, help="run one generated case in-process (debugging)")
     a = ap.parse_args(argv)
     seed = a.seed if a.seed is not None else int(os.environ.get("VERIF_SEED", "0") or 0)
     sys.path.insert(0, VERIF_ROOT)
@@ -332,6 +358,8 @@ def main(argv=None):
     if a.replay:
         M = load_monitor(pid)
         return replay(M, a.replay)
+    if a.case is not None:
+        return run_one(load_monitor(pid), a.tier, seed, a.case)
     # the monitor module is imported here only for its declarative parts (budget, clauses);
     # dreye itself is imported in the shards
     M = load_monitor(pid)
